@@ -177,6 +177,8 @@ type Universe struct {
 	Holds    map[string][]string  `json:"holds"`
 	CanonF32 map[string]string    `json:"canonF32"`
 	CanonF64 map[string]string    `json:"canonF64"`
+	// the times the specification names exactly (every other RFC 3339 text is "sometime" to it)
+	KnownTimes []string `json:"knownTimes"`
 }
 
 // Case is one vector of MCCoerce.tla or one case generated on the Go side.
@@ -512,9 +514,15 @@ func canonPoint(v interface{}, g string) string {
 
 // ------------------------------------------------------- abstract <-> Go values
 
-var knownTimes = map[string]bool{"2020-01-02T03:04:05Z": true, "1970-01-01T00:00:00Z": true, "1970-01-01T00:00:42Z": true}
+var knownTimes = map[string]bool{} // filled from the universe (loadUniverse)
 
 func mustTime(s string) time.Time {
+	switch s { // times no RFC 3339 text can name
+	case "year12345":
+		return time.Date(12345, 1, 2, 3, 4, 5, 0, time.UTC)
+	case "yearMinus5":
+		return time.Date(-5, 1, 2, 3, 4, 5, 0, time.UTC)
+	}
 	t, err := time.Parse(time.RFC3339Nano, s)
 	if err != nil {
 		die("bad time name %q", s)
